@@ -1,3 +1,4 @@
 """importing this package registers every rule"""
 from . import wire_rules  # noqa: F401
 from . import io_rules  # noqa: F401
+from . import cmp_rules  # noqa: F401
